@@ -12,7 +12,7 @@ CLAIMS = {
          "kind dispatch on both dispatch mechanisms, per resolver the source of the stored prong (literal first / guarded resumable / select() / sub-state "
          "report / random walk) for request and report flavours alike, descent into nested regions with the chosen prong, prong dispatch inside CS_, "
          "leftmost-on-ties comparisons, resumable memory on every leave, reset() order, idle guards, agreement of the two RegistryT specialisations and the "
-         "name-to-kind table of the whole request API. Does not decide the resulting configuration for an arbitrary batch from an arbitrary state.",
+         "name-to-kind table of the whole request API. Decides that every ancestor loop of requestImmediate that marks a region can also re-target it (later requests of a batch override earlier ones). Does not decide the resulting configuration for an arbitrary batch from an arbitrary state.",
          "table/sibling agreement rules + interprocedural value-origin analysis + path rules over clang AST facts (static analysis)"),
  "C03": ("Decides enter-after-parent / exit-before-parent order, exit/enter pairing per region, that callbacks reach a sub-state only through the "
          "active (resp. requested) prong of its own region, prong dispatch inside CS_, who may invoke user callbacks / state wrappers / apex entry points, "
@@ -29,12 +29,12 @@ CLAIMS = {
          "success/failure routing decision trees of updatePlan and C_/O_::deepUpdatePlans, that head and sub-state statuses are or-ed into the right "
          "accumulators everywhere, that the status a state reports is the status of its own callbacks (the shared region-scope status is cleared before they "
          "run), mark clearing on exit / end of step, default propagation, TaskStatus ordering, and payload~void sibling agreement. "
-         "Does not decide the step-level accumulation of statuses across nested regions as values.",
+         "Decides that no library function passes, returns, holds or copy-constructs a state sub-object by value (callbacks run on the stored objects). Decides that the round loop is entered at most once per step on every path of its callers and that the change snapshot precedes the requests it is compared with; the bit-view read the orthogonal guard walk filters by is the single-bit normal form. Does not decide the step-level accumulation of statuses across nested regions as values.",
          "field-flow + decision-tree path rules + sibling skeleton agreement over clang AST facts (static analysis)"),
  "C07": ("Decides the capacity clause (no effect and `false` at capacity), who may write the link / bound / task tables, the exact write sets of linkTask "
          "(append at the tail with the old tail as predecessor), remove (both neighbours or the bound re-linked, both links of the freed slot reset, "
          "exactly the addressed slot freed last) and clearTasks (successor read before the slot is freed, bounds reset), agreement of the three plan "
-         "iterators, and reset-to-initial of clear(). Does not decide the global list-shape invariant over arbitrary interleavings.",
+         "iterators, and reset-to-initial of clear(). Decides that emplace() branches only on the bookkeeping fields clear() resets (never on stale slot contents). Does not decide the global list-shape invariant over arbitrary interleavings.",
          "per-path write-set rules + who-may-write + pattern-level sibling normal forms over clang AST facts (static analysis)"),
  "C14": ("Decides that the payload parameter of every ...With entry point (34 functions in 3 API layers plus PayloadPlanT::append) is the payload of the "
          "Transition / Task constructed, the constructor / flag / payload() discipline of TransitionT and TaskT, the plan-to-transition payload arm, "
@@ -44,7 +44,8 @@ CLAIMS = {
  "C08": ("Decides that writer and reader of every save/load pair agree on every path (widths, flag polarity, mirrored sub-calls into the same sub-objects, "
          "destination field), that every sub-object is visited on every path, that the bits save() can write along any path of the call tree fit "
          "SERIAL_BITS for every machine of the zoo (and bytes = ceil(bits/8), stream starts from a cleared buffer), const-ness / empty write set of save, "
-         "that no call after the loader may rewrite the loaded resumable marks, and the load commit sequence. Equality of configurations as values "
+         "that no call after the loader may rewrite the loaded resumable marks, the load commit sequence, and (type-level witness including machines beyond "
+         "255 bits) that the constant the buffer and streams are sized with equals SERIAL_BITS in a type that holds it. Equality of configurations as values "
          "follows from these given C01-C03 and is not separately computed.",
          "writer/reader mirror (per-path stream-token isomorphism) + call-tree bit budget + effect ordering over clang AST facts (static analysis)"),
  "C09": ("Decides what is recorded and when (approved arm only; published on every exit of a step; cleared on deactivation/reset/load/replay), that the "
@@ -66,7 +67,9 @@ CLAIMS = {
          "cover exactly ceil(width/8) units, that shift amounts that are constants / masked / folded template constants are in range (rotations called "
          "with 0<k<W), that the memcpy/memset helpers are instantiated on trivially copyable operands of fitting size, that composite-array subscripts "
          "forkId-1 are dominated by a forkId>0 test in the general registry, plus the serialization bit budget "
-         "and pool reset as the guards of the two indices not tested locally. Does not decide in-range-ness of arbitrary subscripts; shifts needing a "
+         "and pool reset as the guards of the two indices not tested locally, that the payload buffers of TransitionT / TaskT are large enough and aligned "
+         "for the payload (static_assert witness over alignments 1..32), that the serialisation buffer has SERIAL_BITS bits also beyond 255, and that "
+         "updatePlan reads nothing through a plan iterator between remove() and operator++ (typestate). Does not decide in-range-ness of arbitrary subscripts; shifts needing a "
          "relational loop invariant are listed as undecided.",
          "who-may-grow / dominance path rules + constant-range evaluation + type-trait queries over clang AST facts (static analysis)"),
  "C15": ("Decides that the two header flavours are the same program (token-identical after preprocessing in every configuration of the tier; otherwise "
@@ -81,7 +84,7 @@ CLAIMS = {
          "STATE_ID and the Method (and member pointer) its name denotes; that every request entry point logs the transition it queues with the same "
          "kind / origin / destination; that cancellations, task / plan statuses and resolutions are logged unconditionally with the right ids; that "
          "every logger call is guarded by the pointer and logging writes no machine state; and that every R_/RV_ operation that can change the "
-         "active set refreshes the structure report after its last lifecycle call (in id order). Does not decide activityHistory's saturation arithmetic.",
+         "active set refreshes the structure report after its last lifecycle call (in id order). Decides that the logger is never taken or held by value (no slicing), that the interface-mode log() overloads record exactly one recordMethod on the logger handed in or nothing, and the saturating activity-counter update over its whole input domain (finite-domain evaluation of the syntax tree). Does not decide activityHistory's saturation arithmetic.",
          "pairing / dominance path rules + effect analysis over clang AST facts in log and report configurations (static analysis)"),
  "C17": ("Exhaustive within the bound: for every ordered tree over {leaf, composite headed/headless, orthogonal headed/headless} with a region root, at "
          "least one composite region and <= 5 states (quick; <= 7 thorough), plus wide regions (widths 2..17) and mixed orthogonal-over-composite "
@@ -89,7 +92,8 @@ CLAIMS = {
          "COMPO_PRONGS, ACTIVE/RESUMABLE/SERIAL bits, TASK_CAPACITY) against an independent DFS reference, and that separately written peers agree; "
          "the materialised I_<STATE_ID, COMPO_INDEX, ORTHO_INDEX, ORTHO_UNIT> of every S_/C_/O_ base of every zoo machine and of generated wide "
          "machines (where unit offsets differ from indices) equal the same reference; and the registration data written by deepRegister/wideRegister "
-         "agree with those indices by value. Shapes beyond the bound are covered only through the uniformity of the metafunctions.",
+         "agree with those indices by value, that every accessor overload addresses the registered slot by the same indices, and that the copies of the "
+         "counts held by ArgsT equal RF_'s in a type that can hold them (two shapes beyond 255 states / serial bits included). Shapes beyond the bound are covered only through the uniformity of the metafunctions.",
          "type-level static_assert witnesses decided by clang -fsyntax-only + class-hierarchy facts from the extractor (static analysis)"),
  "C18": ("Decides, on the uninstantiated patterns (so that members no machine uses are covered): that each of the 14 single-index accessors reduces, "
          "after substituting its locals, to the canonical one-unit / one-bit-mask form; that whole-array operations are a single loop over all units "
@@ -107,12 +111,12 @@ CLAIMS = {
  "C12": ("Decides tie-breaking operators (left half kept on ties), the utility composition formulas of nested composite / orthogonal regions as expression "
          "shape, same-kind delegation of reports on the way down, rank masking, the shape of the cumulative walk (skip iff cursor >= utility, one rng.next() "
          "per resolution, rng.next called nowhere else, the arrays walked are the arrays summed), that the walk cannot return none, and the anonymous-head "
-         "defaults for rank/utility. Does not decide which interval a particular float r*sum falls into (rounding is a numeric question).",
+         "defaults for rank/utility. Decides that every index resolveRandom can return, including the overshoot fallback, passed the rank filter. Does not decide which interval a particular float r*sum falls into (rounding is a numeric question).",
          "expression-shape / sibling agreement rules + interprocedural return-origin analysis over clang AST facts (static analysis)"),
  "C13": ("Decides that both RegistryT specialisations answer the six queries with the same normalised comparison, that the comparisons are the ones the "
          "statement prescribes over the fields the commit / resume code writes (same index convention), the INVALID sentinel exclusion of the pending "
          "queries, that all control facades forward unchanged, that the resume path hands the remembered prong down unchanged, and that a region stores its "
-         "active prong before its first enter callback runs. Does not decide "
+         "active prong before its first enter callback runs. Decides that every state-keyed query climbs to the deciding composite fork by a loop over forkParent (any number of orthogonal levels). Does not decide "
          "exactness of the pending queries for nested states whose ancestor region is the one switching.",
          "normal-form (atom set) sibling comparison + field tables over clang AST facts (static analysis)"),
  "C05": ("Decides the structural clauses of C05 for every instantiation of the reaction/update patterns in the witness zoo: phase order in "
